@@ -1210,6 +1210,15 @@ class Intrinsic_Type_Spec(WORDClsBase):  # R403
             (pattern.abs_double_precision_name, None),
             ("BYTE", None),
         ]:
+            if (
+                cls is Kind_Selector
+                and string[: len(w)].upper() == w
+                and len(string[len(w) :].strip()) == 1
+            ):
+                # A single character cannot be a kind selector ('*n' and
+                # '(n)' are the shortest): Kind_Selector.match() relies on
+                # its caller for this.
+                return None
             try:
                 obj = WORDClsBase.match(w, cls, string)
             except NoMatchError:
